@@ -18,6 +18,19 @@ func main() {
 		devUnit(os.Args[2:])
 	case "check":
 		os.Exit(govc.CheckMain(os.Args[2:]))
+	case "effects":
+		eng, err := govc.LoadRepo("/repo")
+		if err != nil {
+			fmt.Fprintln(os.Stderr, err)
+			os.Exit(2)
+		}
+		for name, fn := range eng.Funcs {
+			for _, a := range os.Args[2:] {
+				if strings.Contains(name, a) {
+					fmt.Println(name, eng.EffectsString(fn))
+				}
+			}
+		}
 	case "selftest":
 		os.Exit(govc.SelfTestMain(os.Args[2:]))
 	default:
